@@ -348,6 +348,25 @@ class Oracle:
                 if v[2] != ins or [(n, val) for (n, val, _, _) in v[3]] != outs or v[4] != raw:
                     bad.append(('reload_differs', 'transaction %s reloads with different inputs/outputs/amounts/raw '
                                 'bytes than when it was sent' % txid[:12]))
+            # the reloaded OBJECT must serialise to the bytes that were sent (not only carry the stored blob)
+            reser = {}
+            for tok in (o.get('reser') or '').split(','):
+                if tok:
+                    p3 = tok.split('~')
+                    reser[p3[0]] = p3[1]
+            pushed = dict(tok.split('~') for tok in (o.get('pushed') or '').split(',') if tok)
+            for txid in self.sent_view:
+                pr = pushed.get(txid)
+                if pr is None:
+                    continue
+                if txid in reser and reser[txid] != pr:
+                    bad.append(('reload_reserialises_differently', 'sent transaction %s, reloaded from the database by a '
+                                'second Wallet object, serialises to different bytes than were pushed (%s...)'
+                                % (txid[:12], reser[txid][:24])))
+                v = views.get(txid)
+                if v is not None and v[4] not in ('-', '', None) and v[4] != pr:
+                    bad.append(('stored_raw_not_pushed_bytes', 'the raw bytes stored for sent transaction %s (rawtx of the '
+                                'reloaded object) are not the bytes that were pushed' % txid[:12]))
         return bad
 
 
